@@ -220,9 +220,9 @@ def Num.int (a : Num) : M Num := return ⟨.py, a.v⟩
 def ofBool (b : Bool) : Num := ⟨.py, if b then 1 else 0⟩
 
 /-- `min(a, b)`: the first minimal operand -/
-def Num.min (a b : Num) : Num := if b.v < a.v then b else a
+def Num.min (a b : Num) : M Num := if b.v < a.v then .ok b else .ok a
 /-- `max(a, b)`: the first maximal operand -/
-def Num.max (a b : Num) : Num := if b.v > a.v then b else a
+def Num.max (a b : Num) : M Num := if b.v > a.v then .ok b else .ok a
 
 /-- `assert c` -/
 def pyAssert (c : Bool) : M Unit := if c then .ok () else .error .assert_
